@@ -608,7 +608,7 @@ func c16R2(p *core.Prog, r *core.Report, norm *ssa.Function) {
 		if fn == norm {
 			continue
 		}
-		for _, fs := range fieldStores([]*ssa.Function{fn}, func(nn *types.Named, f string) bool { return nn.Obj().Name() == "compare" }) {
+		for _, fs := range fieldStores([]*ssa.Function{fn}, func(nn *types.Named, f string) bool { return core.TypeCanon(nn) == "compare" }) {
 			if !core.IsModNamed(fs.Store.Val.Type(), "types/platform", "Platform") {
 				continue
 			}
